@@ -628,6 +628,7 @@ func c17Account(c *Ctx, a ton.AccountID, cls string) {
 		c.Fail("c17.tl", acc, "tl-format", "MarshalTL is not int32 LE workchain | address")
 	}
 	back("c17.untl", tl, "tl-roundtrip")
+	c17LiteServerForms(c, c.R, a, acc)
 	if a.Workchain < -128 || a.Workchain > 127 {
 		// user-friendly and addr_std forms hold an int8 workchain: outside the quantifier;
 		// the model must still agree on what the code prints
